@@ -62,3 +62,6 @@ def signature(ops, k, key, impl_line, spec_line):
     if key == "own":
         return "clause=summary_own_engine"
     return "clause=" + key
+
+# further models / theorems / correspondences for code around this property (see DESIGN.md §13.6)
+SUBCHECKS = ["C20K"]
